@@ -184,7 +184,11 @@ def run(ck, facts):
         mir = f.get("mir")
         if not mir or "blocks" not in mir:
             continue
-        m = MirFn(f)
+        if re.search(r"DiplomatResultValue<", f.get("output") or "") or re.search(r"^&?(mut )?diplomat_runtime::result::DiplomatResultValue<", (f.get("inputs") or [""])[0]):
+            continue    # accessor / constructor helpers of the bare union: judged where they are applied to a DiplomatResult (spliced into their callers below)
+        fi = C.inline_mir(rt, f)
+        mir = fi["mir"]
+        m = MirFn(fi)
         # edges that establish the flag
         flag_edges = {}  # (a,b) -> True/False
         for bid, blk in m.cfg.blocks.items():
@@ -219,21 +223,20 @@ def run(ck, facts):
                     continue
                 txt = []
                 for pl in _places(s):
-                    pr = pl.get("p") or []
-                    for i, e in enumerate(pr):
-                        if e in (".ok", ".err") and i > 0 and pr[i - 1] == ".value":
-                            txt.append(e[1:])
+                    if any(e in (".ok", ".err") for e in (pl.get("p") or [])):
+                        for x in sym_walk(m.sym_place({"l": pl["l"], "p": pl["p"]})):
+                            if x[0] == "proj" and x[2] in (".ok", ".err") and isinstance(x[1], tuple) and x[1][0] == "proj" and x[1][2] == ".value":
+                                txt.append(x[2][1:])
                 # building a union value is judged by the constructor pairing below (flag constant in the same aggregate), not by the path rule
                 arms += txt
             t = b["term"]
             if t["k"] == "call":
                 for a in t["args"]:
                     pl = C.operand_place(a)
-                    if pl:
-                        pr = pl.get("p") or []
-                        for i, e in enumerate(pr):
-                            if e in (".ok", ".err") and i > 0 and pr[i - 1] == ".value":
-                                arms.append(e[1:])
+                    if pl and any(e in (".ok", ".err") for e in (pl.get("p") or [])):
+                        for x in sym_walk(m.sym_place({"l": pl["l"], "p": pl["p"]})):
+                            if x[0] == "proj" and x[2] in (".ok", ".err") and isinstance(x[1], tuple) and x[1][0] == "proj" and x[1][2] == ".value":
+                                arms.append(x[2][1:])
             for arm in set(arms):
                 n_acc += 1
                 want = arm == "ok"
